@@ -65,6 +65,20 @@ def gen(rng, tier, escalate):
         lines, ops = editgen.gen_history(rng, 12, 8, banner=(t % 3 == 0), ibl=ibl)
         cases.append({"syntax": rng.choice(["ios", "nxos", "iosxr", "asa"]), "ibl": ibl, "delims": rng.choice([["!"], ["!", "#"]]), "ac": rng.random() < 0.5,
                       "lines": lines, "ops": ops, "kind": "rnd"})
+    # auto_commit off and NO commit in between: the seat-belt must stay engaged after every further edit,
+    # whatever is inserted (the same text twice, at different places) until the final commit
+    safe = ["insert", "append", "pop", "oins_before", "oins_after", "lins_after", "replace_text", "insert", "insert", "oins_after"]
+    for t in range(nrand // 2):
+        lines, ops = editgen.gen_history(rng, 8, 6, banner=(t % 4 == 0))
+        pays = [rng.choice(editgen.PAYLOADS) for _ in range(2)]
+        ops2 = []
+        for o in ops:
+            o = dict(o)
+            o["k"] = rng.choice(safe)
+            o["s"] = rng.choice(pays)
+            ops2.append(o)
+        cases.append({"syntax": rng.choice(["ios", "nxos", "asa"]), "ibl": False, "delims": ["!"], "ac": False, "nocommit": True,
+                      "lines": lines, "ops": ops2, "kind": "dirty"})
     return cases
 
 
